@@ -37,7 +37,7 @@ sim("C06", "oracle over the state machines' apply logs: per incarnation indexes 
     "stateful scenario generation, differential against a reference state machine model")
 sim("C09", "oracle: at every commit-index advance of a leader, a majority of the CURRENT voter set (per the leader's membership at that instant, old/new set tolerated around config entries) durably holds the entry, and the entry at the new commit index is of the leader's term.",
     "stateful scenario generation, quorum-counting oracle over recorded logs and acknowledgements")
-sim("C10", "oracle: per-key Wing-Gong linearizability search over acknowledged writes (required), indeterminate writes (optional) and linearizable reads including final reads after heal + restart.",
+sim("C10", "oracle: per-key Wing-Gong linearizability search over acknowledged writes (required), indeterminate writes (optional) and linearizable reads including final reads after heal + restart; slow disks (acknowledged entries memory-only for a while), simultaneous graceful shutdown of the whole cluster. Auxiliary engine (evidence C10.close.json): one real BufferedRaftLog over the simulated disk, generated append/yield/latency sequences followed by close(): every accepted entry must be in the store after the graceful close.",
     "stateful scenario generation, linearizability checker (per-key Wing-Gong search) as oracle")
 sim("C11", "oracle: every successful read under the linearizable policy must fit the per-key linearizability search together with the writes; scenarios biased to isolated leaders, apply lag, late acknowledgements.",
     "stateful scenario generation, linearizability checker as oracle")
